@@ -342,3 +342,11 @@ func TestW_substringRoundHalf(t *testing.T) {
 	wantEval(t, d1, "", `substring('12345', 2, -0.5)`, "")
 	wantEval(t, d1, "", `substring('12345', 2.5)`, "345")
 }
+
+func TestW_attributeOfAttribute(t *testing.T) {
+	// the attribute (and child, descendant) axis of an attribute node is empty
+	wantSel(t, `<r a="1" b="2" c="3"><x/></r>`, "", `/r/@a/@*`)
+	wantSel(t, `<r a="1" b="2" c="3"><x/></r>`, "", `/r/@b/attribute::c`)
+	wantEval(t, `<r a="1" b="2" c="3"><x/></r>`, "", `count(/r/@*/@*)`, float64(0))
+	wantEval(t, `<r a="1" b="2" c="3"><x/></r>`, "", `count(/r/@a/node())`, float64(0))
+}
